@@ -91,6 +91,8 @@ Inductive ccase :=
 | CSessState (mt : mtab) (k : N) (now : Z) (tok : bytes) (exp : bool)
 | CSessJson (mt : mtab) (k : N) (now : Z) (tok : bytes) (jsonok : bool) (exp : bool)
 | CGate (mt : mtab) (k : N) (maxttl now : Z) (tok : bytes) (exp : option (bytes * bool))
+| CGateCb (mt : mtab) (k : N) (maxttl now : Z) (tok : bytes) (cb : option Z)
+          (exp : option (bool * bytes * Z * bool))
 | CChal (mt : mtab) (k : N) (w now : Z) (tok : bytes) (ct : option Z) (exp : N)
 | CCoreSign (privs : list (bytes * bool)) (card : list ckey) (req : bytes) (now : Z)
             (exp_err : N) (exp_id : bytes)
@@ -146,6 +148,13 @@ Definition check_case (c : ccase) : bool :=
       match sess_check (mac_of mt) k now tok, exp with
       | None, None => true
       | Some (d, lf), Some (d', nr) => beq_bytes d d' && Bool.eqb (need_refresh maxttl lf) nr
+      | _, _ => false
+      end
+  | CGateCb mt k maxttl now tok cb exp =>
+      match gate_check_token (mac_of mt) (fun _ => cb) k maxttl now tok, exp with
+      | None, None => true
+      | Some i, Some (v, u, l, r) =>
+          Bool.eqb (gi_valid i) v && beq_bytes (gi_user i) u && (gi_level i =? l)%Z && Bool.eqb (gi_refresh i) r
       | _, _ => false
       end
   | CChal mt k w now tok ct exp =>
